@@ -316,6 +316,8 @@ func runR03_8(c *Ctx, r *R) {
 		switch {
 		case len(late) > 0:
 			r.Bad(key, f.Pos(), "field %s (%s) is assigned in %v after construction without synchronisation, while the state is used by the sender, the receiver and the receive loop concurrently", f.Name(), f.Type(), uniq(late))
+		case why == "" && !mutableContainer(f.Type()):
+			r.OK(key, f.Pos(), "assigned only at construction; the type %s is not a mutable container (its own synchronisation is not judged here)", f.Type())
 		case why == "":
 			r.Bad(key, f.Pos(), "field %s has the unsynchronised mutable type %s in the state shared by the sending and the receiving side: both sides using it (a frame buffer filled by sendData under sendMu and by sendWindow without it) overwrite each other - corrupted or lost frames", f.Name(), f.Type())
 		default:
@@ -442,6 +444,20 @@ func runR19_8(c *Ctx, r *R) {
 				}
 			}
 		case *ssa.Call:
+			// a predicate helper of the client (c.stopped(ctx)): its result has this value only on exits behind a
+			// justified test
+			if h := x.Call.StaticCallee(); h != nil && h.Blocks != nil && h.Pkg == f.Pkg && isBoolType(x.Type()) && depth < 2 {
+				why := ""
+				if helperExcludes(h, 0, truth, func(hcd Cond) bool {
+					if s := justifiedIn(h, ctxArgOf(x, h, ctx), hcd.V, hcd.Truth); s != "" {
+						why = s
+						return true
+					}
+					return false
+				}) {
+					return why
+				}
+			}
 			if x.Call.IsInvoke() && truth {
 				switch x.Call.Method.Name() {
 				case "IsSet":
@@ -538,4 +554,85 @@ func onlyCalledFrom(fn *ssa.Function, ok func(name string) bool, depth int) bool
 		}
 	}
 	return true
+}
+
+// mutableContainer: slices, maps and buffer / builder / writer objects - values whose use IS mutation.
+func mutableContainer(t types.Type) bool {
+	switch t.Underlying().(type) {
+	case *types.Slice, *types.Map:
+		return true
+	}
+	if p, ok := t.(*types.Pointer); ok {
+		t = p.Elem()
+	}
+	if n := namedOf(t); n != nil {
+		name := n.Obj().Name()
+		for _, s := range []string{"Buffer", "Builder", "Writer"} {
+			if strings.Contains(name, s) {
+				return true
+			}
+		}
+	}
+	return false
+}
+
+// ctxArgOf: the parameter of helper h that receives the routine's context at this call (nil if none).
+func ctxArgOf(call *ssa.Call, h *ssa.Function, ctx ssa.Value) ssa.Value {
+	for i, a := range call.Call.Args {
+		if a == ctx && i < len(h.Params) {
+			return h.Params[i]
+		}
+	}
+	return nil
+}
+
+// justifiedIn: inside a predicate helper, the condition tests the context handed in, the closed flag or the mode.
+func justifiedIn(h *ssa.Function, ctx ssa.Value, v ssa.Value, truth bool) string {
+	for i := 0; i < 4; i++ {
+		un, ok := v.(*ssa.UnOp)
+		if !ok || un.Op != token.NOT {
+			break
+		}
+		v, truth = un.X, !truth
+	}
+	switch x := v.(type) {
+	case *ssa.UnOp:
+		if x.Op == token.MUL && strings.HasSuffix(valueSource(x), ".mode") {
+			return "connect mode"
+		}
+	case *ssa.BinOp:
+		for _, side := range []ssa.Value{x.X, x.Y} {
+			if ex, ok := side.(*ssa.Extract); ok {
+				if sel, ok := ex.Tuple.(*ssa.Select); ok && ex.Index == 0 {
+					for _, st := range sel.States {
+						if w, ok := st.Chan.(*ssa.Call); ok && w.Call.IsInvoke() && w.Call.Method.Name() == "Wait" {
+							if ctx != nil && w.Call.Value == ctx {
+								return "context of the routine"
+							}
+							if strings.HasSuffix(valueSource(w.Call.Value), ".closed_") {
+								return "closed flag"
+							}
+						}
+					}
+				}
+			}
+			if ld, ok := side.(*ssa.UnOp); ok && ld.Op == token.MUL && strings.HasSuffix(valueSource(ld), ".mode") {
+				return "connect mode"
+			}
+		}
+	case *ssa.Call:
+		if x.Call.IsInvoke() && truth {
+			switch x.Call.Method.Name() {
+			case "IsSet":
+				if strings.HasSuffix(valueSource(x.Call.Value), ".closed_") {
+					return "closed flag"
+				}
+			case "Done":
+				if ctx != nil && x.Call.Value == ctx {
+					return "context of the routine"
+				}
+			}
+		}
+	}
+	return ""
 }
